@@ -82,6 +82,33 @@ fn castle_root(rng: &mut gen::R) -> Option<Pos> {
     None
 }
 
+/// first move of the final line of a quick single-worker search from a fresh small memory
+fn probe_first_move(rng: &mut gen::R, p: &Pos, depth: usize) -> Option<OMove> {
+    let sc = Scenario { tables: 8, buckets: 1024, hasher_seed: rng.gen(), steps: vec![Step::new(&p.fen(), depth, 1, rng.gen())] };
+    let mut first = None;
+    sc.run(&Evaluator::default(), |_, _, res| {
+        first = res.out.lines.last().and_then(|l| l.0.first().map(crate::conv::to_omove));
+        true
+    });
+    first
+}
+
+/// a root in which the engine itself wants to castle (so that a stale entry would carry a castling move)
+fn castle_preferring_root(rng: &mut gen::R, depth: usize) -> Option<Pos> {
+    for _ in 0..12 {
+        let p = castle_root(rng)?;
+        if gen::q_cost(&p, 300_000) >= 300_000 {
+            continue;
+        }
+        if let Some(m) = probe_first_move(rng, &p, depth) {
+            if m.castle.is_some() {
+                return Some(p);
+            }
+        }
+    }
+    None
+}
+
 pub fn make_scenario(rng: &mut gen::R, corpus: &[Pos], kind: &str) -> Scenario {
     let (tables, buckets) = random_geometry(rng);
     let mut sc = Scenario { tables, buckets, hasher_seed: rng.gen(), steps: vec![] };
@@ -89,7 +116,9 @@ pub fn make_scenario(rng: &mut gen::R, corpus: &[Pos], kind: &str) -> Scenario {
     match kind {
         "rights" => {
             // the same placement with different castling rights, searched in some order on one memory
-            let p = castle_root(rng).unwrap_or_else(|| random_root(rng, corpus));
+            let d0 = rng.gen_range(2..=3);
+            let preferred = if rng.gen_bool(0.6) { castle_preferring_root(rng, d0) } else { None };
+            let p = preferred.or_else(|| castle_root(rng)).unwrap_or_else(|| random_root(rng, corpus));
             let mut variants = vec![p.clone()];
             let mine = if p.wtm { WK | WQ } else { BK | BQ };
             for mask in [mine, WK | BK, WQ | BQ, 0xf] {
@@ -99,7 +128,6 @@ pub fn make_scenario(rng: &mut gen::R, corpus: &[Pos], kind: &str) -> Scenario {
                     variants.push(q);
                 }
             }
-            let d0 = rng.gen_range(2..=3);
             // deeper (or equal) first, so that the stored entries are deep enough to be trusted
             sc.steps.push(Step::new(&variants[0].fen(), d0, w(rng), rng.gen()));
             let mut rest: Vec<Pos> = variants[1..].to_vec();
@@ -119,13 +147,33 @@ pub fn make_scenario(rng: &mut gen::R, corpus: &[Pos], kind: &str) -> Scenario {
         "ep" => {
             let p = loop {
                 let v = gen::ep_family(rng, 8);
-                if let Some(p) = v.into_iter().find(|p| p.ep_legal() && !p.legal_moves().is_empty()) {
+                if let Some(p) = v.into_iter().find(|p| {
+                    let mut q = p.clone();
+                    q.ep = None;
+                    p.ep_legal() && !q.legal_moves().is_empty()
+                }) {
                     break p;
                 }
             };
+            let d0 = rng.gen_range(2..=4);
+            let mut p = p;
+            if rng.gen_bool(0.6) {
+                // prefer a root in which the engine itself plays the en-passant capture
+                for _ in 0..8 {
+                    if probe_first_move(rng, &p, d0.min(3)).map(|m| m.ep).unwrap_or(false) {
+                        break;
+                    }
+                    if let Some(c) = gen::ep_family(rng, 8).into_iter().find(|c| {
+                        let mut q = c.clone();
+                        q.ep = None;
+                        c.ep_legal() && !q.legal_moves().is_empty() && gen::q_cost(c, 300_000) < 300_000
+                    }) {
+                        p = c;
+                    }
+                }
+            }
             let mut q = p.clone();
             q.ep = None;
-            let d0 = rng.gen_range(2..=4);
             let (a, b) = if rng.gen_bool(0.7) { (&p, &q) } else { (&q, &p) };
             sc.steps.push(Step::new(&a.fen(), d0, w(rng), rng.gen()));
             if !b.legal_moves().is_empty() {
@@ -203,6 +251,11 @@ pub fn judge(kind: &str, sc: &Scenario, i: usize, step: &Step, res: &StepResult,
     if let Some(e) = &res.out.panic {
         rep.violation("search-panic", &format!("search-panic|{}", sig_tail), &format!("search of {} panicked: {}", step.fen, e), replay());
         return false;
+    }
+    if root.legal_moves().is_empty() {
+        // the property speaks about positions with a legal move; terminal roots are C04's business
+        rep.count("terminal_roots_skipped", 1);
+        return true;
     }
     if res.out.lines.is_empty() {
         rep.violation("no-report", &format!("no-report|{}", sig_tail), &format!("search of {} (depth {:?}, {} legal moves) ended without reporting a line", step.fen, step.depth, root.legal_moves().len()), replay());
